@@ -178,7 +178,10 @@ class C01(Prop):
 
     def canon_model(self, layer, op, ans):
         if layer in ("parse_rest", "parse_numpydoc", "parse_google") and "ok" in ans:
-            return {"ok": canon_ir(ans["ok"])}
+            j = ans["ok"]
+            if isinstance(j, dict) and j.get("returns") == {}:
+                j = dict(j, returns=None)  # (a return entry that holds nothing is transported as "no return entry")
+            return {"ok": canon_ir(j)}
         return ans
 
     # ---- the property on the real code ---------------------------------------
